@@ -35,7 +35,8 @@ static int gen_unit(GenSt& g, int arena, int depth) {
     std::string o; int nops = g.s.range(1, 3), na = (int)g.ar.size();
     for (int k = 0; k < nops; k++) {
         bool sub = depth < 3 && g.budget > 0;
-        uint32_t c = g.s.weighted({ 3, 3, sub ? 2u : 0u, sub ? 2u : 0u, sub ? 2u : 0u, sub ? 1u : 0u });
+        bool noenq = drv_flag("--noenq");      // focused leg: limit 1, nothing is ever enqueued, no arena can be full -> no worker may ever run a body
+        uint32_t c = g.s.weighted({ 3, 3, sub ? 2u : 0u, sub ? (noenq ? 4u : 2u) : 0u, sub ? 2u : 0u, (sub && !noenq) ? 1u : 0u });
         if (c == 0) o += " W" + std::to_string(g.s.range(1, 6));
         else if (c == 1) { static const int ns[] = { 2, 3, 5, 8 }; o += " P" + std::to_string(ns[g.s.choose(4)]) + ":" + std::to_string(g.s.range(1, 4)) + ":" + std::to_string((int)g.s.weighted({ 4, 1, 2 })); }
         else if (c == 2) { int n = 1 + (int)g.s.weighted({ 2, 3, 1 }); o += " G"; for (int i = 0; i < n && (i == 0 || g.budget > 0); i++) o += (i ? "," : "") + gen_sub(g, arena, depth + 1); }
@@ -70,13 +71,15 @@ std::string h_gen(Src& s) {
         for (int t = 0; t < ext; t++) o += "u " + std::to_string(t) + " W" + std::to_string(s.range(1, 6)) + "\n";
         return o;
     }
+    bool noenq = drv_flag("--noenq");
     int par = draw_L(s); if (par == 1 && s.flip()) par = 3;
     int ext = 1 + (int)s.weighted({ 3, 5, 2 });
+    if (noenq) { par = 1; ext = 2 + (int)s.choose(2); }
     int na = 1 + (int)s.weighted({ 4, 3, 1 });
     int rounds = 1 + (int)s.weighted({ 3, 2 });
     std::string cfg = "cfg par=" + std::to_string(par) + " ext=" + std::to_string(ext) + " rounds=" + std::to_string(rounds) + " arenas=";
     for (int i = 0; i < na; i++) {
-        ACfg a; a.mc = 1 + (int)s.weighted({ 2, 4, 2, 2 }); a.res = (int)s.weighted({ 3, 4, 1 }); if (a.res > a.mc) a.res = a.mc; a.pri = (int)s.weighted({ 4, 1, 1 });
+        ACfg a; a.mc = 1 + (int)s.weighted({ 2, 4, 2, 2 }); a.res = (int)s.weighted({ 3, 4, 1 }); if (noenq && a.mc < ext) a.mc = ext; if (a.res > a.mc) a.res = a.mc; a.pri = (int)s.weighted({ 4, 1, 1 });
         g.ar.push_back(a); cfg += (i ? "," : "") + std::to_string(a.mc) + ":" + std::to_string(a.res) + ":" + std::to_string(a.pri);
     }
     bool allot = s.coin(4);
@@ -93,7 +96,7 @@ std::string h_gen(Src& s) {
         for (int t = 0; t < ext; t++) {
             std::string l; int nops = s.range(1, 3); std::vector<int> mine;
             for (int k = 0; k < nops; k++) {
-                uint32_t c = s.weighted({ 7, g.budget > 0 ? 2u : 0u, 2, 1 });
+                uint32_t c = s.weighted({ 7, (g.budget > 0 && !noenq) ? 2u : 0u, 2, 1 });
                 if (g.budget <= 0 && c == 0) c = 2;
                 if (c == 0) { int a = (int)s.choose((uint32_t)na); l += " X" + std::to_string(a) + ":" + gen_sub(g, a, 1); }
                 else if (c == 1) { int a = (int)s.choose((uint32_t)na), tries = 0; while (!can_enqueue(g.ar[(size_t)a]) && tries++ < na) a = (a + 1) % na; if (can_enqueue(g.ar[(size_t)a])) l += " E" + std::to_string(a) + ":" + gen_sub(g, a, 1); else l += " W1"; }
@@ -120,7 +123,7 @@ struct Obs;
 struct Arena { int mc, res, pri; tbb::task_arena* ta = nullptr; Obs* obs = nullptr; std::vector<Inflight> in; std::map<int, int> obs_cnt, obs_idx; std::map<int, int> slot_last; long entries = 0, exits = 0; int max_in = 0; bool enq_seen = false; /* enqueue, or an execute whose functor was delegated, into this arena since the last quiescent point */ int x_pending = 0; /* execute() calls into this arena whose functor has not started */ };
 static std::vector<Arena> AR; static std::vector<Unit> U;
 static std::map<int, tbb::global_control*> GC; static std::map<int, int> GCV; static int L0 = 2;
-static int win_max = 1; static bool enq_seen = false, g_witness = false; static int x_pending = 0; static long n_x_inplace_certain = 0, n_x_wrongly_certain = 0;   // execute() calls whose functor has not started: may be delegated = enqueued
+static int g_ext = 1; static int win_max = 1; static bool enq_seen = false, g_witness = false; static int x_pending = 0; static long n_x_inplace_certain = 0, n_x_wrongly_certain = 0;   // execute() calls whose functor has not started: may be delegated = enqueued
 static long next_tag = 1;
 struct TState { int arena = -1; std::vector<long> tags; std::vector<int> xarenas; /* arenas this thread is inside through its own execute() calls */ };
 static thread_local TState ts;
@@ -277,7 +280,7 @@ static void run_ops(const std::vector<Op>& ops) {
     }
 }
 
-static int g_rounds = 1, g_ext = 1, round_go = -1; static std::vector<std::vector<std::vector<Op>>> TS_;   // [round][thread] ops
+static int g_rounds = 1, round_go = -1; static std::vector<std::vector<std::vector<Op>>> TS_;   // [round][thread] ops
 static std::vector<std::vector<char>> round_done;
 static void thread_rounds(int t) {
     for (int r = 0; r < g_rounds; r++) {
